@@ -1032,6 +1032,181 @@ fn api(ty: &str, label: &str, k: u64) -> Option<Vec<u8>> {
     })
 }
 
+
+// ------------------------------------------------------------------------------------------------
+// stream 2b: SIZE and RANGE bounds of every bounded leaf of the CDDL, through every validating constructor.
+// Lengths are measured in BYTES (what `tstr .size` / `bytes .size` bound) and built from ASCII and from 2-, 3- and
+// 4-byte code points, so that character count and byte count differ.  A constructor may reject (result `rejected`);
+// whatever it ACCEPTS is emitted and must conform.
+const WIDTHS: &[&str] = &["ascii", "u2", "u3", "u4", "mix"];
+/// text of exactly `n` UTF-8 bytes made of code points of `width` bytes (0 = mixed widths), ASCII padding for the remainder
+fn text_of_bytes(g: &mut G, n: usize, width: usize) -> String {
+    const C2: [char; 3] = ['é', 'ß', 'ж'];
+    const C3: [char; 3] = ['€', '語', 'ก'];
+    const C4: [char; 3] = ['😀', '𝄞', '𐍈'];
+    let mut s = String::new();
+    while s.len() < n {
+        let w = if width == 0 { 1 + g.below(4) as usize } else { width };
+        let w = if s.len() + w <= n { w } else { 1 };
+        let c = match w { 2 => C2[g.below(3) as usize], 3 => C3[g.below(3) as usize], 4 => C4[g.below(3) as usize],
+                          _ => (b'a' + g.below(26) as u8) as char };
+        s.push(c);
+    }
+    s
+}
+/// the text for variant k at a byte bound: k%4 = 0: bound-1 bytes, 1: bound, 2: bound+1, 3: `bound` CHARACTERS of that width
+/// (bound*width bytes: at most `bound` characters but far more bytes); larger k also try bound+2.. and 2*bound
+fn bounded_text(g: &mut G, bound: usize, width_name: &str, k: u64) -> String {
+    let width = match width_name { "ascii" => 1, "u2" => 2, "u3" => 3, "u4" => 4, _ => 0 };
+    match k % 8 {
+        0 => text_of_bytes(g, bound - 1, width),
+        1 => text_of_bytes(g, bound, width),
+        2 => text_of_bytes(g, bound + 1, width),
+        3 => { let w = if width == 0 { 3 } else { width }; text_of_bytes(g, bound * w, w) }
+        4 => text_of_bytes(g, bound + 2, width),
+        5 => { let w = if width == 0 { 2 } else { width }; text_of_bytes(g, (bound / w) * w + w, w) }   // just over, no padding
+        6 => text_of_bytes(g, 2 * bound, width),
+        _ => { let n = g.range(bound as u64 - 3, bound as u64 + 3) as usize; text_of_bytes(g, n, width) }
+    }
+}
+fn bounded_len(bound: usize, k: u64) -> usize {
+    match k % 8 { 0 => bound - 1, 1 => bound, 2 => bound + 1, 3 => 0, 4 => bound + 2, 5 => 2 * bound, 6 => 2 * bound + 1, _ => bound.saturating_sub(2) }
+}
+fn bound_labels() -> Vec<(&'static str, String)> {
+    let mut v: Vec<(&'static str, String)> = Vec::new();
+    for w in WIDTHS {
+        v.push(("Anchor", format!("bound_url_{}", w)));
+        v.push(("PoolMetadata", format!("bound_url_{}", w)));
+        v.push(("Relay", format!("bound_dns_a_{}", w)));
+        v.push(("Relay", format!("bound_dns_srv_{}", w)));
+        v.push(("TransactionMetadatum", format!("bound_text_{}", w)));
+        v.push(("TransactionMetadatum", format!("bound_mapkey_{}", w)));
+        v.push(("TransactionMetadatum", format!("bound_json_text_{}", w)));
+        v.push(("Certificate", format!("bound_pool_registration_{}", w)));
+        v.push(("Certificate", format!("bound_drep_anchor_{}", w)));
+    }
+    for l in ["bound_ipv4", "bound_ipv6", "bound_port"] { v.push(("Relay", l.to_string())); }
+    for l in ["bound_bytes", "bound_json_bytes", "bound_arbitrary_bytes", "bound_int_from_str"] { v.push(("TransactionMetadatum", l.to_string())); }
+    v.push(("Assets", "bound_asset_name".to_string()));
+    v.push(("MultiAsset", "bound_asset_name".to_string()));
+    v.push(("Value", "bound_coin_from_str".to_string()));
+    v.push(("Mint", "bound_qty_int64".to_string()));
+    v.push(("TransactionInput", "bound_index".to_string()));
+    v.push(("GovernanceActionId", "bound_index".to_string()));
+    v.push(("Redeemers", "bound_index_u32".to_string()));
+    v.push(("TransactionBody", "bound_uint64_fields".to_string()));
+    v.push(("ProtocolParamUpdate", "bound_sized_fields".to_string()));
+    v.push(("Costmdls", "bound_cost_int64".to_string()));
+    v.push(("NativeScript", "bound_n_of_k".to_string()));
+    v.push(("PlutusData", "bound_bytes".to_string()));
+    v.push(("PlutusData", "bound_bigint".to_string()));
+    v.push(("UnitInterval", "bound_extremes".to_string()));
+    v
+}
+/// None = unknown label; Some(Err) = the constructor rejected the value; Some(Ok(bytes)) = emitted bytes
+fn bound(ty: &str, label: &str, k: u64) -> Option<Result<Vec<u8>, ()>> {
+    let mut g = G::new(fnv(&format!("{}/{}", ty, label)) ^ k);
+    let g = &mut g;
+    let width = label.rsplit('_').next().unwrap_or("");
+    let stem = if WIDTHS.contains(&width) { &label[..label.len() - width.len() - 1] } else { label };
+    let two63: u64 = 1u64 << 63;
+    Some(match (ty, stem) {
+        ("Anchor", "bound_url") => URL::new(bounded_text(g, 128, width, k)).map_err(|_| ())
+            .map(|u| Anchor::new(&u, &AnchorDataHash::from_bytes(g.bytes(32)).unwrap()).to_bytes()),
+        ("PoolMetadata", "bound_url") => URL::new(bounded_text(g, 128, width, k)).map_err(|_| ())
+            .map(|u| PoolMetadata::new(&u, &PoolMetadataHash::from_bytes(g.bytes(32)).unwrap()).to_bytes()),
+        ("Relay", "bound_dns_a") => DNSRecordAorAAAA::new(bounded_text(g, 128, width, k)).map_err(|_| ())
+            .map(|d| Relay::new_single_host_name(&SingleHostName::new(if k & 8 != 0 { Some(g.u16e() as u16) } else { None }, &d)).to_bytes()),
+        ("Relay", "bound_dns_srv") => DNSRecordSRV::new(bounded_text(g, 128, width, k)).map_err(|_| ())
+            .map(|d| Relay::new_multi_host_name(&MultiHostName::new(&d)).to_bytes()),
+        ("Relay", "bound_ipv4") => Ipv4::new(g.bytes(bounded_len(4, k))).map_err(|_| ())
+            .map(|ip| Relay::new_single_host_addr(&SingleHostAddr::new(None, Some(ip), None)).to_bytes()),
+        ("Relay", "bound_ipv6") => Ipv6::new(g.bytes(bounded_len(16, k))).map_err(|_| ())
+            .map(|ip| Relay::new_single_host_addr(&SingleHostAddr::new(None, None, Some(ip))).to_bytes()),
+        ("Relay", "bound_port") => { let p = [0u16, 1, 23, 24, 255, 256, 65534, 65535][(k % 8) as usize];
+            Ok(Relay::new_single_host_addr(&SingleHostAddr::new(Some(p), None, None)).to_bytes()) }
+        ("TransactionMetadatum", "bound_text") => TransactionMetadatum::new_text(bounded_text(g, 64, width, k)).map_err(|_| ()).map(|m| m.to_bytes()),
+        ("TransactionMetadatum", "bound_bytes") => TransactionMetadatum::new_bytes(g.bytes(bounded_len(64, k))).map_err(|_| ()).map(|m| m.to_bytes()),
+        ("TransactionMetadatum", "bound_mapkey") => { let mut m = MetadataMap::new();
+            m.insert_str(&bounded_text(g, 64, width, k), &g.md_int(false)).map_err(|_| ()).map(|_| TransactionMetadatum::new_map(&m).to_bytes()) }
+        ("TransactionMetadatum", "bound_json_text") => {
+            let t = bounded_text(g, 64, width, k);
+            let schema = [MetadataJsonSchema::NoConversions, MetadataJsonSchema::BasicConversions, MetadataJsonSchema::DetailedSchema][((k / 8) % 3) as usize];
+            let json = if let MetadataJsonSchema::DetailedSchema = schema { format!("{{\"map\":[{{\"k\":{{\"string\":\"{}\"}},\"v\":{{\"list\":[{{\"string\":\"{}\"}}]}}}}]}}", t, t) }
+                       else { format!("{{\"{}\":[\"{}\"]}}", t, t) };
+            encode_json_str_to_metadatum(json, schema).map_err(|_| ()).map(|m| m.to_bytes())
+        }
+        ("TransactionMetadatum", "bound_json_bytes") => {
+            let h = hex::encode(g.bytes(bounded_len(64, k)));
+            let (json, schema) = if (k / 8) % 2 == 0 { (format!("{{\"k\":\"0x{}\"}}", h), MetadataJsonSchema::BasicConversions) }
+                                 else { (format!("{{\"map\":[{{\"k\":{{\"bytes\":\"{}\"}},\"v\":{{\"bytes\":\"{}\"}}}}]}}", h, h), MetadataJsonSchema::DetailedSchema) };
+            encode_json_str_to_metadatum(json, schema).map_err(|_| ()).map(|m| m.to_bytes())
+        }
+        ("TransactionMetadatum", "bound_arbitrary_bytes") => { let n = [0usize, 1, 63, 64, 65, 127, 128, 129][(k % 8) as usize];
+            Ok(encode_arbitrary_bytes_as_metadatum(&g.bytes(n)).to_bytes()) }
+        ("TransactionMetadatum", "bound_int_from_str") => {
+            let t = ["18446744073709551614", "18446744073709551615", "18446744073709551616", "-18446744073709551615",
+                     "-18446744073709551616", "-18446744073709551617", "9223372036854775808", "-9223372036854775809"][(k % 8) as usize];
+            Int::from_str(t).map_err(|_| ()).map(|i| TransactionMetadatum::new_int(&i).to_bytes()) }
+        ("Certificate", "bound_pool_registration") => URL::new(bounded_text(g, 128, width, k)).map_err(|_| ()).and_then(|u| {
+            let d = DNSRecordAorAAAA::new(bounded_text(g, 128, width, k)).map_err(|_| ())?;
+            let mut relays = Relays::new(); relays.add(&Relay::new_single_host_name(&SingleHostName::new(Some(65535), &d)));
+            let md = PoolMetadata::new(&u, &PoolMetadataHash::from_bytes(g.bytes(32)).unwrap());
+            let (op, vrf, ui, ra, owners) = (g.kh(), g.vrf(), g.unit_interval(), g.reward_any(), g.key_hashes(0, 2));
+            let p = PoolParams::new(&op, &vrf, &g.coin(), &g.coin(), &ui, &ra, &owners, &relays, Some(md));
+            Ok(Certificate::new_pool_registration(&PoolRegistration::new(&p)).to_bytes()) }),
+        ("Certificate", "bound_drep_anchor") => URL::new(bounded_text(g, 128, width, k)).map_err(|_| ()).map(|u| {
+            let a = Anchor::new(&u, &AnchorDataHash::from_bytes(g.bytes(32)).unwrap());
+            let c = g.cred_any();
+            Certificate::new_drep_update(&DRepUpdate::new_with_anchor(&c, &a)).to_bytes() }),
+        ("Assets", "bound_asset_name") => AssetName::new(g.bytes(bounded_len(32, k))).map_err(|_| ())
+            .map(|n| { let mut a = Assets::new(); a.insert(&n, &bn(g.pos())); a.to_bytes() }),
+        ("MultiAsset", "bound_asset_name") => AssetName::new(g.bytes(bounded_len(32, k))).map_err(|_| ())
+            .map(|n| { let mut m = MultiAsset::new(); m.set_asset(&g.sh(), &n, &bn(g.pos())); m.to_bytes() }),
+        ("Value", "bound_coin_from_str") => {
+            let t = ["0", "23", "4294967295", "4294967296", "18446744073709551614", "18446744073709551615", "18446744073709551616", "-1"][(k % 8) as usize];
+            BigNum::from_str(t).map_err(|_| ()).map(|c| Value::new(&c).to_bytes()) }
+        ("Mint", "bound_qty_int64") => {
+            let q = match k % 8 { 0 => Int::new(&bn(two63 - 2)), 1 => Int::new(&bn(two63 - 1)), 2 => Int::new(&bn(two63)),
+                                  3 => Int::new_negative(&bn(two63 - 1)), 4 => Int::new_negative(&bn(two63)), 5 => Int::new_negative(&bn(two63 + 1)),
+                                  6 => Int::new_i32(1), _ => Int::new_i32(-1) };
+            MintAssets::new_from_entry(&g.asset_name(), &q).map_err(|_| ()).map(|ma| Mint::new_from_entry(&g.sh(), &ma).to_bytes()) }
+        ("TransactionInput", "bound_index") => Ok(TransactionInput::new(&g.txh(), [65534u32, 65535][(k % 2) as usize]).to_bytes()),
+        ("GovernanceActionId", "bound_index") => Ok(GovernanceActionId::new(&g.txh(), [65534u32, 65535][(k % 2) as usize]).to_bytes()),
+        ("Redeemers", "bound_index_u32") => { let mut v = Redeemers::new();
+            let i = [0u64, 65535, 65536, (1u64 << 32) - 2, (1u64 << 32) - 1][(k % 5) as usize];
+            let tag = g.redeemer_tag(k); let d = g.plutus_data(1);
+            v.add(&Redeemer::new(&tag, &bn(i), &d, &ExUnits::new(&bn(u64::MAX), &bn(u64::MAX - 1)))); Ok(v.to_bytes()) }
+        ("TransactionBody", "bound_uint64_fields") => {
+            let x = [u64::MAX, u64::MAX - 1, 1u64 << 32, (1u64 << 32) - 1][(k % 4) as usize];
+            let mut b = TransactionBody::new_tx_body(&g.tx_ins(1, 2), &g.outputs(0, 2), &bn(x));
+            b.set_ttl(&bn(x)); b.set_validity_start_interval_bignum(&bn(x)); b.set_total_collateral(&bn(x)); b.set_donation(&bn(x));
+            let _ = b.set_current_treasury_value(&bn(x)); Ok(b.to_bytes()) }
+        ("ProtocolParamUpdate", "bound_sized_fields") => {
+            let (a, c) = if k % 2 == 0 { (65535u32, u32::MAX) } else { (65534u32, u32::MAX - 1) };
+            let mut p = ProtocolParamUpdate::new();
+            p.set_max_block_header_size(a); p.set_n_opt(a); p.set_collateral_percentage(a); p.set_max_collateral_inputs(a); p.set_min_committee_size(a);
+            p.set_max_block_body_size(c); p.set_max_tx_size(c); p.set_max_epoch(c); p.set_max_value_size(c);
+            p.set_committee_term_limit(c); p.set_governance_action_validity_period(c); p.set_drep_inactivity_period(c);
+            Ok(p.to_bytes()) }
+        ("Costmdls", "bound_cost_int64") => (|| -> Result<Vec<u8>, ()> { let mut m = CostModel::new();
+            m.set(0, &Int::new(&bn(two63 - 1))).map_err(|_| ())?; m.set(1, &Int::new_negative(&bn(two63))).map_err(|_| ())?;
+            m.set(2, &Int::new(&bn(two63 - 2))).map_err(|_| ())?; m.set(3, &Int::new_negative(&bn(two63 - 1))).map_err(|_| ())?;
+            let mut c = Costmdls::new(); c.insert(&[Language::new_plutus_v1(), Language::new_plutus_v2(), Language::new_plutus_v3()][(k % 3) as usize], &m);
+            Ok(c.to_bytes()) })(),
+        ("NativeScript", "bound_n_of_k") => { let n = [0u32, 1, 65535, 65536, u32::MAX - 1, u32::MAX][(k % 6) as usize];
+            Ok(NativeScript::new_script_n_of_k(&ScriptNOfK::new(n, &g.native_scripts(0, 2, 0))).to_bytes()) }
+        ("PlutusData", "bound_bytes") => { let n = [0usize, 63, 64, 65, 127, 128, 129, 192][(k % 8) as usize]; Ok(PlutusData::new_bytes(g.bytes(n)).to_bytes()) }
+        ("PlutusData", "bound_bigint") => {
+            let t = ["18446744073709551615", "18446744073709551616", "-18446744073709551616", "-18446744073709551617",
+                     "9223372036854775807", "-9223372036854775808", "0", "-1"][(k % 8) as usize];
+            BigInt::from_str(t).map_err(|_| ()).map(|b| PlutusData::new_integer(&b).to_bytes()) }
+        ("UnitInterval", "bound_extremes") => { let (n, d) = [(0u64, 1u64), (1, 1), (0, u64::MAX), (u64::MAX, u64::MAX), (u64::MAX - 1, u64::MAX), (1, 2), (23, 24), (255, 256)][(k % 8) as usize];
+            Ok(UnitInterval::new(&bn(n), &bn(d)).to_bytes()) }
+        _ => return None,
+    })
+}
+
 // ------------------------------------------------------------------------------------------------
 // stream 3: TransactionBuilder scenarios
 #[derive(Default)]
@@ -1491,6 +1666,10 @@ fn exec(toks: &[String]) -> String {
         Some("api") => {
             if toks.len() != 4 { return "harness-badcase".into(); }
             let k: u64 = match toks[3].parse() { Ok(k) => k, Err(_) => return "harness-badcase".into() };
+            if toks[2].starts_with("bound_") {
+                return match bound(&toks[1], &toks[2], k) {
+                    Some(Ok(b)) => format!("ok {}", hex_or_dash(&b)), Some(Err(())) => "rejected".to_string(), None => "skip unknown-label".to_string() };
+            }
             match api(&toks[1], &toks[2], k) { Some(b) => format!("ok {}", hex_or_dash(&b)), None => "skip unknown-label".to_string() }
         }
         Some("tx") => {
@@ -1533,6 +1712,16 @@ fn gen(dir: &str) {
                 let res = run_line(&case);
                 out.emit(&case, &res);
             }
+        }
+    }
+    // 2b. bounds: the 8 fixed variants of every label (bound-1 / bound / bound+1 / `bound` characters / ...) always, more when thorough
+    for (ty, label) in bound_labels() {
+        let mut ks: Vec<u64> = (0..(if thorough { 48u64 } else { 8 })).collect();
+        ks.push(r.next());
+        for k in ks {
+            let case = format!("api {} {} {}", ty, label, k);
+            let res = run_line(&case);
+            out.emit(&case, &res);
         }
     }
     // 3. tx
